@@ -47,16 +47,44 @@ def run(res, args):
                 ts = (ts0 + d) % 604800000
             cluster_of[len(specs)] = ci
             specs.append(re.sub(r"(?<![a-z])ts=\d+", "ts=%d" % ts, base))
+    # pairs: an MSM7 and an MSM4 message of the same constellation about the same satellites and signals (what one
+    # message says about a satellite must not colour how another message about it reads)
+    npairs = 40 if res.tier == "quick" else 500
+    pair_of = {}
+    for pi in range(npairs):
+        shape = (rng.randint(1, 8), rng.randint(1, 4))
+        a = msmgen.abstract(rng, k7=True, shape=shape)[0]
+        b = msmgen.abstract(rng, k7=False, shape=shape)[0]
+        cons = rng.choice([1087, 1087, 1087, 1077, 1097, 1127])
+        sigs = sorted(rng.sample([2, 3, 8, 9] + list(range(1, 33)), shape[1]))
+        if len(set(sigs)) < shape[1]:
+            sigs = sorted(rng.sample(range(1, 33), shape[1]))
+        sats_tok = re.search(r"(?<![a-z])sats=\S+", a).group(0)
+        sigs_tok = "sigs=" + ".".join(map(str, sigs))
+        a = re.sub(r"type=\d+", "type=%d" % cons, re.sub(r"sigs=\S+", sigs_tok, a))
+        b = re.sub(r"type=\d+", "type=%d" % (cons - 3), re.sub(r"sigs=\S+", sigs_tok, re.sub(r"(?<![a-z])sats=\S+", sats_tok, b)))
+        if cons == 1087:
+            a = re.sub(r"(?<![a-z])ts=\d+", "ts=%d" % ((rng.randint(0, 6) << 27) | rng.randint(0, 86399999)), a)
+            b = re.sub(r"(?<![a-z])ts=\d+", "ts=%d" % ((rng.randint(0, 6) << 27) | rng.randint(0, 86399999)), b)
+        else:
+            a = re.sub(r"(?<![a-z])ts=\d+", "ts=%d" % rng.randint(0, 604799999), a)
+            b = re.sub(r"(?<![a-z])ts=\d+", "ts=%d" % rng.randint(0, 604799999), b)
+        for t in (a, b):
+            pair_of[len(specs)] = pi
+            specs.append(t)
     lines, e = common.run_lines(common.MODEL_BIN, "msmspec", ["msmspec " + t for t in specs])
-    pool, clusters = [], {}
+    pool, clusters, pairs = [], {}, {}
     for i, line in enumerate(lines or []):
         parts = dict(p.split("=", 1) for p in line.split(" ", 3))
         if parts.get("wf") == "1":
-            if i in cluster_of:
+            if i in pair_of:
+                pairs.setdefault(pair_of[i], []).append(bytes.fromhex(parts["frame"]))
+            elif i in cluster_of:
                 clusters.setdefault(cluster_of[i], []).append(bytes.fromhex(parts["frame"]))
             else:
                 pool.append(bytes.fromhex(parts["frame"]))
     clusters = [c for c in clusters.values() if len(c) >= 2]
+    pairs = [c for c in pairs.values() if len(c) == 2]
     cases, frames_all = [], []
     for _ in range(nb):
         frames = []
@@ -65,6 +93,10 @@ def run(res, args):
             rng.shuffle(cl)
             frames.extend(cl)
             res.count("batch containing one constellation's messages stamped within seconds of each other, in any order")
+        if pairs and rng.random() < 0.25:
+            a7, b4 = rng.choice(pairs)
+            frames.extend(rng.choice([[b4, a7, b4], [a7, b4], [b4, a7, a7, b4]]))
+            res.count("batch containing an MSM7 and an MSM4 message of one constellation about the same satellites")
         for _ in range(rng.randint(3, 12) - len(frames) if len(frames) < 3 else rng.randint(0, 4)):
             r = rng.random()
             if r < 0.4 and pool:
